@@ -178,3 +178,16 @@ def oracle(c):
     elif k != ref.cycle:
         fails.append(Failure("oracle", PROP, f"run finished after {k} cycles, documented schedule needs {ref.cycle}", "schedule:total-cycles"))
     return fails
+
+
+# The counter lines of the performance-metrics TEXT are part of the model (`SimViews.metricsLines` / `toyMetricsLines`): what the
+# user reads is compared at the end of every case.
+_cases_nometrics = cases
+
+
+def cases(rng, tier):
+    for c in _cases_nometrics(rng, tier):
+        if any(l == "sim.snap" for l in c.lines):
+            # in front of the final snapshot only: the oracles pair every step with the snapshot behind it and read the last output
+            c.lines = c.lines[:-1] + ["sim.metrics", c.lines[-1]] if c.lines[-1] == "sim.snap" and c.suite != "straight" else c.lines
+        yield c
